@@ -30,7 +30,7 @@ type ListSpec struct {
 	Styles  []int `json:"style_profiles"`  // profile index per style s0,s1,...
 	Regions []int `json:"region_profiles"` // profile per region r0,...
 	Dates   bool  `json:"stl_dates_in_metadata"`
-	IDs     int   `json:"id_scheme,omitempty"` // 0: s0,s1,.. / r0,r1,..; 1: identifiers equal up to case; 2: equal as numbers
+	IDs     int   `json:"id_scheme,omitempty"` // 0: s0,s1,.. / r0,r1,..; 1: identifiers equal up to case; 2: equal as numbers; 3: keys s0.. with blank ID fields; 4: keys s0.. with the same ID field
 }
 
 // identifier schemes: distinct identifiers that tie under a weaker comparison a writer might sort by
@@ -39,14 +39,26 @@ var styleIDs = [][]string{nil, {"Title", "title", "TITLE", "tITLE", "TiTle", "ti
 var regionIDs = [][]string{nil, {"Top", "top", "TOP", "tOP", "ToP", "toP"}, {"2", "02", "002", "0002", "00002", "000002"}}
 
 func (ls ListSpec) styleID(i int) string {
-	if ls.IDs == 0 {
+	if ls.IDs == 0 || ls.IDs >= 3 {
 		return fmt.Sprintf("s%d", i)
 	}
 	return styleIDs[ls.IDs][i]
 }
 
+// idField: what the definition's own ID field holds - the key it is registered under, or (schemes 3 and 4) nothing /
+// the same word for every definition: a list nobody read from a file, whose definitions tie under their ID field
+func (ls ListSpec) idField(key string) string {
+	switch ls.IDs {
+	case 3:
+		return ""
+	case 4:
+		return "same"
+	}
+	return key
+}
+
 func (ls ListSpec) regionID(i int) string {
-	if ls.IDs == 0 {
+	if ls.IDs == 0 || ls.IDs >= 3 {
 		return fmt.Sprintf("r%d", i)
 	}
 	return regionIDs[ls.IDs][i]
@@ -93,11 +105,11 @@ func (ls ListSpec) Build() *astisub.Subtitles {
 	}
 	for i, p := range ls.Styles {
 		id := ls.styleID(i)
-		s.Styles[id] = &astisub.Style{ID: id, InlineStyle: styleAttrs(p)}
+		s.Styles[id] = &astisub.Style{ID: ls.idField(id), InlineStyle: styleAttrs(p)}
 	}
 	for i, p := range ls.Regions {
 		id := ls.regionID(i)
-		s.Regions[id] = &astisub.Region{ID: id, InlineStyle: regionAttrs(p)}
+		s.Regions[id] = &astisub.Region{ID: ls.idField(id), InlineStyle: regionAttrs(p)}
 	}
 	for k := 0; k < 2; k++ {
 		// content a normalising writer would be tempted to rewrite in place: outer blanks, characters every format
@@ -162,7 +174,7 @@ func specs(tier core.Tier) []ListSpec {
 			}
 			out = append(out, ListSpec{Styles: st, Regions: rg, Dates: true})
 			if len(st) >= 2 || len(rg) >= 2 {
-				for ids := 1; ids <= 2; ids++ {
+				for ids := 1; ids <= 4; ids++ {
 					if len(st) <= 3 || tier == core.Thorough {
 						out = append(out, ListSpec{Styles: st, Regions: rg, Dates: true, IDs: ids})
 					}
